@@ -164,6 +164,42 @@ func (c *Check) mergeWithLastKept() {
 					}
 				}
 			}
+			// a cursor kept next to the list: a loop-carried value that starts as the list's first
+			// element and is re-assigned exactly the element appended, where it is appended
+			if ph, isPhi := call.Call.Args[0].(*ssa.Phi); !good && isPhi && result != nil {
+				okCursor := true
+				nApp := 0
+				for i, e := range ph.Edges {
+					if e == ssa.Value(ph) {
+						continue
+					}
+					pred := ph.Block().Preds[i]
+					if ph.Block().Dominates(pred) {
+						// back edge: e must be appended to the result list on that path
+						appended := false
+						for _, hs := range harvestSites(f) {
+							if hs.val == e && (hs.ins.Block() == pred || hs.ins.Block().Dominates(pred)) {
+								if app, isCall := hs.ins.(*ssa.Call); isCall && phiReaches(result, app, map[ssa.Value]bool{}) {
+									appended = true
+								}
+							}
+						}
+						if !appended {
+							okCursor = false
+						}
+						nApp++
+					} else {
+						// entry: the first element of the list
+						arr0, idx0, isIdx0 := loadIndex(e)
+						if !isIdx0 || !isConstInt(idx0, 0) || arr0 == nil {
+							okCursor = false
+						}
+					}
+				}
+				if okCursor && nApp > 0 {
+					good = true
+				}
+			}
 			if good {
 				c.ok("C14-R7", "merge-last-kept", p.relFile(call.Pos()), "a range is merged into the last mapping kept so far", "adjacent(result[len(result)-1], m) with result the list assigned to p.Mapping")
 			} else {
